@@ -64,7 +64,13 @@ func genC22(tp *simkit.Tape, client, idx int) c22stmt {
 	k := fmt.Sprint(m)
 	var st c22stmt
 	st.marker = m
-	switch c := tp.Choose(20); {
+	switch c := tp.Choose(22); {
+	case c == 20:
+		// the master hint on a SHOW statement
+		st.sql = []string{hintForm(tp) + " show tables", "show " + hintForm(tp) + " tables", "show tables " + hintForm(tp), hintForm(tp) + " show variables like 'version'"}[tp.Choose(4)]
+		st.class, st.mustMaster, st.marker = "master-hint-show", true, 0
+	case c == 21:
+		st.sql, st.class, st.mustMaster, st.marker = []string{"select @@innodb_read_only, @@read_only", "select 1, @@global.read_only"}[tp.Choose(2)], "read_only-probe", true, 0
 	case c <= 4:
 		st.sql, st.class = "select * from t_plain where id = "+k, "plain-read"
 	case c == 5:
@@ -74,7 +80,12 @@ func genC22(tp *simkit.Tape, client, idx int) c22stmt {
 	case c <= 12:
 		lock := []string{"for update", "for share", "lock in share mode", "for update nowait", "for update skip locked", "for share nowait", "for share skip locked"}[c-7+tp.Choose(1)]
 		st.sql, st.class, st.mustMaster = "select * from t_plain where id = "+k+" "+lock, "locking-read:"+lock, true
-		if tp.Chance(1, 5) {
+		if tp.Chance(1, 6) {
+			// a string literal with a backslash-escaped quote in front of the lock clause (what client-side
+			// parameter interpolation produces)
+			st.sql = "select * from t_plain where id = " + k + " and name = 'it\\'s' " + lock
+			st.class = "locking-read-after-escaped-quote:" + lock
+		} else if tp.Chance(1, 5) {
 			// a double minus that is arithmetic, not a comment (no blank behind it), in front of the lock clause
 			st.sql = "select * from t_plain where id = " + k + " and a > 5--2 " + lock
 			st.class = "locking-read-after-double-minus:" + lock
@@ -83,6 +94,9 @@ func genC22(tp *simkit.Tape, client, idx int) c22stmt {
 		st.sql, st.class, st.mustMaster = "select "+hintForm(tp)+" * from t_plain where id = "+k, "master-hint", true
 	case c == 14:
 		st.sql, st.class, st.mustMaster = "select * from t_plain where id = "+k+" "+hintForm(tp), "master-hint", true
+		if tp.Chance(1, 4) {
+			st.sql = "select * from t_plain where name = 'it\\'s' and id = " + k + " " + hintForm(tp) + " order by id"
+		}
 	case c == 15:
 		st.sql, st.class, st.mustMaster = hintForm(tp)+" select * from t_plain where id = "+k, "master-hint", true
 	case c == 16:
@@ -98,10 +112,10 @@ func genC22(tp *simkit.Tape, client, idx int) c22stmt {
 	st.sql = recase(tp, st.sql, tp.Choose(3))
 	var decos []string
 	if tp.Chance(1, 3) {
-		st.sql = strings.ReplaceAll(st.sql, " ", []string{"\n", "\t", "  ", " \n "}[tp.Choose(4)])
+		st.sql = strings.ReplaceAll(st.sql, " ", []string{"\n", "\t", "  ", " \n ", "\r\n", "\f", "\v"}[tp.Choose(7)])
 		decos = append(decos, "respaced")
 	}
-	if st.class != "master-hint" && tp.Chance(1, 4) {
+	if !strings.HasPrefix(st.class, "master-hint") && tp.Chance(1, 4) {
 		st.sql = []string{"/* app=web */ ", "/*trace:abc*/", "-- lead\n"}[tp.Choose(3)] + st.sql
 		decos = append(decos, "leading-comment")
 	}
